@@ -30,10 +30,10 @@ T = {
             COMMON, "Lean 4 proof + differential correspondence + direct phantom oracle (seqdrv)"),
     "C06": ("Lean theorems on the NodeSet chain model (leaf chain with fences, inserts, splits, any interleaving): a completed insert into the scanned interval is in the scan's result or makes a collected (version,node) pair stale; counters are monotone so staleness is permanent; a scan whose pairs are all unchanged has read exactly the keys present. The scanner of the model is on the safe side of the code in three stated ways. Tied to the code by scheduler-driven runs: node sets are re-validated after all operations completed and compared with the fresh inserts of the interval.",
             COMMON + SC, "Lean 4 proof (protocol model) + deterministic-scheduler node-set re-validation"),
-    "C07": ("Lean theorem on the epoch protocol model (sessions, two-step enter with the repaired re-check, non-atomic scans of the epoch thread, gc epoch, per-slot queues with cache): no object is freed while a session that was active at its unlink is still active; counterexample theorem for the unrepaired enter (D3). Tied to the code by scheduler-driven runs with the library's epoch and gc threads scheduled and threads stalled across epoch advances: ASan on pointers held until leave, content re-read, and a reclamation-order check on the event trace.",
+    "C07": ("Lean theorem on the epoch protocol model (sessions, two-step enter with the repaired re-check, non-atomic scans of the epoch thread, gc epoch, per-slot queues with cache): no object is freed while a session that was active at its unlink is still active; counterexample theorem for the unrepaired enter (D3). Tied to the code by scheduler-driven runs with the library's epoch and gc threads scheduled and threads stalled across epoch advances: ASan on pointers held until leave, content re-read, a reclamation-order check on the event trace and the Lean monitor `yakmodel epoch` (retired values and retired nodes).",
             COMMON + SC + "TBB concurrent_queue is modelled as a FIFO; the relaxed store of begin_epoch_ is treated as sequentially consistent.",
             "Lean 4 proof (protocol model) + deterministic-scheduler runs with ASan and trace oracle"),
-    "C08": ("Lean theorems: Inv (decidable well-formedness of the layered leaf chains) holds in every state reachable by any operation sequence; point lookups, the in-order content and the keys whose last completed operation was a put coincide; content is strictly ascending. The same executable predicates are evaluated on the implementation's structure dump after every mutation (incl. interior nodes: separators sorted, fan-out, fences) and the walker checks parent/child, prev/next, lock and dirty bits, reachability. Concurrent clause: walker + final content after scheduler-driven runs.",
+    "C08": ("Lean theorems: Inv (decidable well-formedness of the layered leaf chains) holds in every state reachable by any operation sequence; point lookups, the in-order content and the keys whose last completed operation was a put coincide; content is strictly ascending. The same executable predicates are evaluated on the implementation's structure dump after every mutation (incl. interior nodes: separators sorted, fan-out, fences) and the walker checks parent/child, prev/next, lock and dirty bits, reachability. Interior nodes: on every dump that passes checkLayer, descending by get_child_of's test reaches exactly the leaf the model's fence rule selects (theorem interior_descent_matches_fences). Concurrent clause: walker + final content after scheduler-driven runs.",
             COMMON + SC + "Pointer-level link consistency is validated by the walker, not proved (the proof model has no pointers).",
             "Lean 4 proof (invariant preservation) + checkInv on real dumps + walker"),
     "C09": ("Lean theorem (LockOrder): under mutual exclusion, if every wait respects one strict order on locks there is always a blocked thread whose awaited lock is held by a running thread (no deadlock); threads holding nothing block nobody. Tied to the code by scheduler-driven runs: lock-order graph of the observed acquisitions must be acyclic (which is the existence of such an order), all locks released when operations return, scheduler stall detector and hang timeout, and the Lean monitor `yakmodel vers`, which accepts a successful compare-exchange on a version word only if it is one atomic operation of the Version model and the lock is taken when free / released by its holder (collapse workloads: sibling borders under a one-key interior emptied together). Liveness under fairness is argued, not proved.",
@@ -42,11 +42,11 @@ T = {
             COMMON + SC + "The concurrent sentence is checked, not proved.", "Lean 4 proof (sequential contract) + differential correspondence + scheduler histories"),
     "C11": ("Lean theorems on the allocation ledger model: live = speculative + linked + retired + cursors, nothing freed twice, fin releases everything but open cursors, failed speculation is balanced. Tied to the code by an operator new/delete interposer: sized-delete arguments must match, no double/unknown free, and at quiescence the live aligned allocations equal the objects the walker can reach; after fin nothing is left (sequentially and after scheduler-driven concurrent workloads).",
             COMMON + "Allocations inside TBB/glog are outside the ledger.", "Lean 4 proof (ledger model) + allocation interposer vs walker (seqdrv, scheddrv)"),
-    "C12": ("Lean theorems: an insert reports modified=(layer,index); every other pre-existing layer is untouched; in that layer either that leaf alone moves its insert counter, or it splits into two leaves whose insert and split counters both moved and created=(layer,index+1); an overwrite changes no version. Tied to the code by differential comparison of the reported nodes and of every counter in the dump, and by a direct oracle that snapshots all border versions before and after each put.",
+    "C12": ("Lean theorems: an insert reports modified=(layer,index); every other pre-existing layer is untouched; in that layer either that leaf alone moves its insert counter, or it splits into two leaves whose insert and split counters both moved and created=(layer,index+1); an overwrite changes no version. Tied to the code by differential comparison of the reported nodes and of every counter in the dump, and by a direct oracle that snapshots all border versions before and after each put (incl. overwrites that change only the representation of the value, inline vs out-of-line).",
             COMMON, "Lean 4 proof + differential correspondence + direct version-diff oracle"),
     "C13": ("Lean theorems on the storage directory model: create/delete/find/list behave as a map from names to independent trees, isolation of data operations, list sorted and complete, unknown names, exactly one winner among sequential unique creates (the concurrent clause follows for linearizable histories). Tied to the code by differential sequences with storage churn over binary / long / prefix-sharing names.",
             COMMON + SC + "Concurrent create/delete races are scheduled (linearizability of the directory); DDL in parallel with DML is outside the contract stated in kvs.h.", "Lean 4 proof + differential correspondence (seqdrv) + scheduler histories of the directory"),
-    "C14": ("Lean theorems on the session-table protocol (every capacity N, any number of threads, weak CAS): tokens of open sessions are distinct, at most N open, a quiescent enter succeeds iff a slot is free, WARN_MAX_SESSIONS only after every slot was observed occupied during the call, slots reusable after leave, begin epoch non-zero from return to leave. Tied to the code by running the real thread_info_table under the scheduler for several capacities: every event trace is replayed through the Lean acceptor Session.step? and the history through a session oracle.",
+    "C14": ("Lean theorems on the session-table protocol (every capacity N, any number of threads, weak CAS): tokens of open sessions are distinct, at most N open, a quiescent enter succeeds iff a slot is free, WARN_MAX_SESSIONS only after every slot was observed occupied during the call, slots reusable after leave, begin epoch non-zero from return to leave. Tied to the code by running the real thread_info_table under the scheduler for several capacities: every event trace is replayed through the Lean acceptor Session.step? and the history through a session oracle (distinct tokens, capacity, WARN_MAX_SESSIONS, and probes of an open session's own slot: running with a non-zero begin epoch), with threads held inside enter across epoch advances.",
             COMMON + SC, "Lean 4 proof (protocol model) + trace acceptor on the real code"),
     "C15": ("Lean theorems on the value block layout and pointer tagging (alignment of the body, regions, sized-delete arguments, length/tag round-trips, inline values by value); differential grid over lengths x alignments with an allocation interposer; byte round-trip through put/get/scan/iscan and created_value_ptr are part of the sequential differential runs.",
             COMMON + SC + "Old-or-new under concurrent overwrite is checked on scheduler-driven histories (values of very different lengths, unique per put), not by a separate theorem.", "Lean 4 proof + differential correspondence (unitdrv, seqdrv) + scheduler histories for the atomic-update clause"),
